@@ -1,11 +1,14 @@
-"""Oracle clauses C01-C12 evaluated over the recorded history of an S-POOL run."""
+"""Oracle clauses C01-C12 evaluated over the recorded history of an S-POOL run.
+
+Signatures are `<clause>:<what>[:<job kind>][:<cause>]`; causes come from diagnose() so that a
+known finding can be matched by what actually went wrong rather than by the pool's settings."""
 import traceback as _tb
 
-from .common import V
 from . import pooltask as T
-from .pool_oracles import exc_of, POOL_MADE, ACK, READY, DEATH
+from .pool_world import exc_of, POOL_MADE, ACK, READY, DEATH, NACK, TERMSIGS
 
 RECURSION_LIMIT_DEPTH = 900
+EX_RECYCLE = 155
 
 
 def natural_static(prog, uid):
@@ -22,38 +25,35 @@ def natural_static(prog, uid):
             if ins[1] >= RECURSION_LIMIT_DEPTH:
                 return ('exc', 'RecursionError', None)
             return ('exc', ins[2], ('deep', uid))
+        if op == 'try':
+            inner = natural_static(ins[1], uid)
+            if inner[0] == 'exc':
+                return natural_static(ins[2], uid)
+            return inner
         if op in ('unpicklable', 'nested_unpicklable'):
             return ('unpicklable',)
         return ('other',)
     return ('ret', ('v', uid, None))
 
 
-def part_index(W, rec):
-    """uid of each part (chunk) of a job: list of lists of item uids, in chunk order."""
-    if rec.kind == 'apply':
-        return [[rec.uid]]
-    items = [it[0] for it in rec.items]
-    cs = rec.chunksize
-    if rec.kind in ('map', 'starmap'):
-        if cs is None:
-            n = len(items)
-            cs, extra = divmod(n, rec.pool_size_at_submit * 4)
-            if extra:
-                cs += 1
-        if len(items) == 0:
-            return []
-    cs = cs or 1
-    return [items[i:i + cs] for i in range(0, len(items), cs)]
+def has_fault_instr(prog):
+    for ins in prog:
+        if ins[0] in ('die', 'os_exit', 'sys_exit'):
+            return True
+        if ins[0] in ('try', 'catch_soft'):
+            if has_fault_instr(ins[1]) or (ins[0] == 'try' and has_fault_instr(ins[2])):
+                return True
+    return False
 
 
 def owners_info(W, rec):
-    """Per part index: list of (pid, ack_step, ready_step or None) from the wiretap."""
+    """part index -> list of [pid, ack_step, ready_step or None, ack_sim_time, ack_args]."""
     out = {}
     jid = rec.jobid
     for pid, msgs in W.msgs_out.items():
         for (step, t, kind, args) in msgs:
             if kind == ACK and args[0] == jid:
-                out.setdefault(args[1], []).append([pid, step, None, t])
+                out.setdefault(args[1], []).append([pid, step, None, t, args])
             elif kind == READY and args[0] == jid:
                 for ent in out.get(args[1], ()):
                     if ent[0] == pid and ent[2] is None:
@@ -61,67 +61,84 @@ def owners_info(W, rec):
     return out
 
 
-def job_story(W, rec, ex):
-    """Discriminating facts about what happened to a job (used in signatures)."""
-    tags = set()
-    if rec.opts.get('bad_arg'):
-        tags.add('badarg')
-    uids = [rec.uid] if rec.kind == 'apply' else [it[0] for it in rec.items]
-    for u in uids:
-        for d in ex.get(u, ()):
-            p = W.workers.get(d['pid'])
-            if p is not None and p['proc'].dead and d['end'] is None:
-                st = p['proc'].status
-                tags.add('died-in-task')
-    if W.case['pool'].get('maxtasksperchild'):
-        tags.add('recycling')
-    if W.case['pool'].get('timeout') or rec.opts.get('timeout'):
-        tags.add('hardlimit')
-    if W.case['pool'].get('soft_timeout') or rec.opts.get('soft_timeout'):
-        tags.add('softlimit')
-    if not W.case['pool'].get('threads', True):
-        tags.add('nothreads')
-    return '+'.join(sorted(tags)) or 'plain'
+def unfinished_dead_owners(W, owners, before_step):
+    out = []
+    for i, ents in owners.items():
+        for pid, ack_step, ready_step, _t, _a in ents:
+            w = W.workers.get(pid)
+            if w and ready_step is None and w['proc'].dead and w['proc'].death_step <= before_step:
+                out.append((i, pid, w['proc'].status))
+    return out
+
+
+def diagnose(W):
+    """Why did the run not drain?  One primary cause tag."""
+    k = W.k
+    pc = W.case['pool']
+    live = [w for w in W.workers.values() if not w['proc'].dead]
+    if W.closed_at is not None and pc.get('maxtasksperchild'):
+        recycled_after_close = [w for w in W.workers.values() if w['proc'].dead and
+                                w['proc'].status == ('exit', EX_RECYCLE) and
+                                w['proc'].death_step >= W.closed_at[0]]
+        if recycled_after_close and len(live) < pc['processes']:
+            return 'recycled-after-close-not-replaced'
+    if not pc.get('threads', True):
+        return 'nothreads'
+    return 'other'
+
+
+def human_status_of(status):
+    kind, n = status
+    if kind == 'signal':
+        return 'signal %d' % n
+    return 'exitcode %d' % n
 
 
 def judge(W):
     k = W.k
     case = W.case
     prop = case['prop']
-    P = W.P
     ex = W.exec_log()
     bad = W.bad
     pool = W.pool
+    end = k.end_reason
+    cause = diagnose(W) if end != 'quiescent' or True else 'other'
 
     # ---------------------------------------------------------------- general
     for a in k.actors:
+        if a.exc is not None and isinstance(a.exc, SystemExit) and a.kind in (
+                'Supervisor', 'TaskHandler', 'ResultHandler', 'TimeoutHandler'):
+            continue        # PoolThread.run ends its thread with sys.exit() after RestartFreqExceeded
         if a.exc is not None:
             bad(prop + '.x', 'actor-exception:%s:%s' % (a.kind, type(a.exc).__name__),
-                '%s: %r\n%s' % (a.name, a.exc, ''.join(_tb.format_exception(type(a.exc), a.exc, a.exc.__traceback__))[-900:]))
+                '%s: %r\n%s' % (a.name, a.exc,
+                                ''.join(_tb.format_exception(type(a.exc), a.exc, a.exc.__traceback__))[-900:]))
     if k.host_exit is not None:
-        who = '?'
+        who, why = '?', ''
         for e in k.log:
             if e[2] == 'death' and e[3] == k.root.pid:
-                who = e[1].split('.')[-1]
-        crash = [e for e in k.log if e[2] == 'actor-crash']
-        bad('C01.f', 'host-exit:by-%s:%s' % (who, k.host_exit[0]),
-            'a pool thread took the host process down: status %r (thread %s)' % (k.host_exit, who))
-        bad(prop + '.f', 'host-exit:by-%s:%s' % (who, k.host_exit[0]),
-            'a pool thread took the host process down: status %r (thread %s)' % (k.host_exit, who))
-    end = k.end_reason
+                who = e[1].split('.')[-1].split('#')[0]
+            if e[2] == 'actor-crash':
+                why = '%s %s' % (e[3], e[4])
+        crash = ''
+        for e in k.log:
+            if e[2] == 'pool-error' and 'crashed' in e[3]:
+                crash = e[4]
+        for p in sorted(set([prop, 'C01', 'C05'] if who == 'TimeoutHandler' else [prop, 'C01'])):
+            bad(p + '.f', 'host-exit:by-%s:%s' % (who, crash or k.host_exit[0]),
+                'a pool thread took the host process down: status %r (thread %s) %s' % (k.host_exit, who, crash))
     if end not in ('quiescent', 'host-exit'):
         ua = [a for a in k.actors if a.name == 'P0.user']
         where = W.marks.get('cur_op', '?')
         lab = ua[0].label.split(':')[0] if ua and ua[0].state != 'done' else 'user-done'
-        clause = {'join': 'C07', 'terminate': 'C08', 'close': 'C07'}.get(where, prop)
-        bad(clause + '.live', 'stuck:%s:in-%s:%s' % (end, where, job_story_pool(W)),
-            'run ended by %s while the user was in %s (%s); blocked actors: %r'
-            % (end, where, lab, k.blocked_report()[:6]))
+        clause = {'join': 'C07', 'close': 'C07', 'terminate': 'C08'}.get(where, prop)
+        det = 'run ended by %s while the user was in %s (blocked on %s); cause: %s; blocked actors: %r' % (
+            end, where, lab, cause, k.blocked_report()[:5])
+        bad(clause + '.live', 'stuck:in-%s:%s' % (where, cause), det)
         if clause != prop:
-            bad(prop + '.live', 'stuck:%s:in-%s:%s' % (end, where, job_story_pool(W)),
-                'run ended by %s while the user was in %s' % (end, where))
+            bad(prop + '.live', 'stuck:in-%s:%s' % (where, cause), det)
 
-    # ---------------------------------------------------------------- C01 / C02 / C04 per job
+    # ---------------------------------------------------------------- per job: C01 / C04 / C12
     cache_ids = set(pool._cache.keys()) if pool is not None else set()
     for uid, rec in W.jobs.items():
         if rec.after_close:
@@ -130,59 +147,65 @@ def judge(W):
             continue
         if not rec.returned_handle:
             continue
-        story = job_story(W, rec, ex)
-        nok = sum(1 for c in rec.cbs if c[1] == 'ok')
-        nerr = sum(1 for c in rec.cbs if c[1] == 'err')
+        nok = sum(1 for c in rec.cbs if c[2] == 'ok')
+        nerr = sum(1 for c in rec.cbs if c[2] == 'err')
         if nok + nerr > 1:
-            bad('C01.b', 'callbacks-fired-twice:%s:%s' % (rec.kind, story),
+            bad('C01.b', 'callbacks-fired-twice:%s' % rec.kind,
                 'job %r: success callbacks %d, error callbacks %d' % (uid, nok, nerr))
-        if rec.discarded:
+        if rec.discarded or rec.cancelled:
             continue
         res = rec.res
         owners = owners_info(W, rec)
         if rec.kind in ('imap', 'imap_unordered'):
-            judge_imap(W, rec, ex, owners, story)
+            judge_imap(W, rec, ex, owners, cause)
             continue
         if not res.ready():
-            if end in ('quiescent', 'deadlock', 'horizon') and W.marks.get('drain_end') or end == 'quiescent':
-                bad('C01.a', 'unresolved:%s:%s' % (rec.kind, story),
+            abandoned = W.case.get('epilogue') == 'terminate_only' and W.term_calls
+            if (W.marks.get('drain_end') or end == 'quiescent') and not abandoned:
+                jc = job_cause(W, rec, ex, owners, cause)
+                bad('C01.a', 'unresolved:%s:%s' % (rec.kind, jc),
                     'job %r (%s) never reached a terminal outcome; observed %r' % (uid, rec.kind, rec.observed[-2:]))
+                if jc.startswith('worker-died'):
+                    bad('C04.e', 'loss-not-reported:%s' % rec.kind,
+                        'job %r: its worker died (%s) and the handle never resolved' % (uid, jc))
             continue
         if rec.jobid in cache_ids and all_accepted(res) and end == 'quiescent':
-            bad('C01.g', 'cache-leak:%s:%s' % (rec.kind, story), 'job %r resolved and accepted but still cached' % uid)
+            bad('C01.g', 'cache-leak:%s' % rec.kind, 'job %r resolved and accepted but still cached' % uid)
         if res._success:
-            check_value(W, rec, res._value, ex, story)
+            check_value(W, rec, res._value, ex)
             if nerr:
                 bad('C01.b', 'error-callback-on-success:%s' % rec.kind, 'job %r' % uid)
         else:
             tname, args, exc, einfo = exc_of(res._value)
-            check_failure(W, rec, tname, args, exc, einfo, ex, owners, story)
+            check_failure(W, rec, tname, args, exc, einfo, ex, owners)
             if nok:
                 bad('C01.b', 'success-callback-on-failure:%s' % rec.kind, 'job %r' % uid)
-            if prop == 'C12' or True:
-                check_einfo(W, rec, tname, args, exc, einfo, story)
+            check_einfo(W, rec, tname, args, exc, einfo)
 
-    if prop == 'C02':
-        judge_C02(W, ex)
-    judge_C07(W, ex)
+    judge_C02(W, ex) if prop == 'C02' else None
+    judge_C03(W, ex)
+    judge_C04(W, ex)
+    judge_C05(W, ex)
+    judge_C06(W, ex)
+    judge_C07(W, ex, cause)
+    judge_C08(W, ex)
+    judge_C09(W, ex)
+    judge_C10(W, ex)
+    judge_C11b(W, ex)
+    judge_C12(W, ex)
     nontrivial = k.n_decisions > 0 and subject_occurred(W, prop, ex)
     return W.viol, nontrivial
 
 
-def job_story_pool(W):
-    pc = W.case['pool']
-    tags = []
-    if any(r.kind != 'apply' for r in W.jobs.values()):
-        tags.append('maps')
-    if pc.get('maxtasksperchild'):
-        tags.append('recycling')
-    if pc.get('timeout') or pc.get('soft_timeout'):
-        tags.append('limits')
-    if not pc.get('threads', True):
-        tags.append('nothreads')
-    if any(w['proc'].dead and w['proc'].info.get('executing') for w in W.workers.values()):
-        tags.append('died-in-task')
-    return '+'.join(tags) or 'plain'
+def job_cause(W, rec, ex, owners, cause):
+    if rec.opts.get('bad_arg'):
+        return 'send-failed'
+    dead = unfinished_dead_owners(W, owners, W.k.steps)
+    if dead:
+        return 'worker-died-in-task'
+    if not owners:
+        return 'never-accepted:' + cause
+    return 'accepted-not-finished:' + cause
 
 
 def all_accepted(res):
@@ -192,11 +215,11 @@ def all_accepted(res):
         return False
 
 
-def check_value(W, rec, value, ex, story):
+def check_value(W, rec, value, ex):
     if rec.kind == 'apply':
         rets = [d['ret'] for d in ex.get(rec.uid, ()) if d['has_ret']]
         if value not in rets:
-            W.bad('C01.d', 'foreign-value:apply:%s' % story,
+            W.bad('C01.d', 'foreign-value:apply',
                   'job %r resolved with %.80r which no execution of it returned (%r)' % (rec.uid, value, rets))
     else:
         uids = [it[0] for it in rec.items]
@@ -210,33 +233,33 @@ def check_value(W, rec, value, ex, story):
                 W.bad('C02.m', 'map-slot-wrong:%s' % rec.kind,
                       'job %r position %d holds %.60r, executions of that input returned %r (chunksize %r, %d inputs)'
                       % (rec.uid, pos, v, rets, rec.chunksize, len(uids)))
-                W.bad('C01.d', 'foreign-value:%s:%s' % (rec.kind, story), 'job %r position %d' % (rec.uid, pos))
+                W.bad('C01.d', 'foreign-value:%s' % rec.kind, 'job %r position %d' % (rec.uid, pos))
                 break
 
 
-def check_failure(W, rec, tname, args, exc, einfo, ex, owners, story):
+def check_failure(W, rec, tname, args, exc, einfo, ex, owners):
     k = W.k
     uid = rec.uid
     uids = [uid] if rec.kind == 'apply' else [it[0] for it in rec.items]
     if tname in ('WorkerLostError', 'Terminated'):
-        # attribution: some worker accepted a part, never completely wrote its result, and is dead
         first = rec.first[0] if rec.first else k.steps
-        ok = False
-        for i, ents in owners.items():
-            for pid, ack_step, ready_step, _t in ents:
-                w = W.workers.get(pid)
-                if w and ready_step is None and w['proc'].dead and w['proc'].death_step <= first:
-                    ok = True
-        if not ok:
-            finished_dead = sorted(set((W.workers[pid]['proc'].status) for ents in owners.values()
-                                       for pid, a, r, _t in ents
+        dead = unfinished_dead_owners(W, owners, first)
+        if not dead:
+            finished_dead = sorted(set(W.workers[pid]['proc'].status for ents in owners.values()
+                                       for pid, a, r, _t, _x in ents
                                        if r is not None and pid in W.workers and W.workers[pid]['proc'].dead))
-            W.bad('C01.d', 'lost-without-dead-owner:%s:%s' % (rec.kind, story),
-                  'job %r failed %s(%r) but no worker holding an unfinished part of it had exited; '
-                  'owners that had finished their part and exited: %r' % (uid, tname, args, finished_dead))
-            W.bad('C04.b', 'lost-without-dead-owner:%s:%s' % (rec.kind, story),
-                  'job %r failed %s(%r) but no worker holding an unfinished part of it had exited; '
-                  'owners that had finished their part and exited: %r' % (uid, tname, args, finished_dead))
+            what = 'owner-finished-its-part-then-exited' if finished_dead else 'no-owner-exited'
+            det = ('job %r failed %s%r but no worker holding an unfinished part of it had exited; owners that had '
+                   'finished their part and exited: %r' % (uid, tname, args, finished_dead))
+            W.bad('C01.d', 'lost-without-dead-owner:%s:%s' % (rec.kind, what), det)
+            W.bad('C04.b', 'lost-without-dead-owner:%s:%s' % (rec.kind, what), det)
+            W.bad('C09.j', 'job-failed-by-recycling:%s' % rec.kind, det) if finished_dead else None
+        elif tname == 'WorkerLostError':
+            want = [human_status_of(st) for _i, _p, st in dead]
+            msg = str(args[0]) if args else ''
+            if not any(w in msg for w in want):
+                W.bad('C04.a', 'status-not-named:%s' % rec.kind,
+                      'job %r: message %r does not name the exit status %r' % (uid, msg, want))
         return
     if tname == 'TimeLimitExceeded':
         if not (W.case['pool'].get('timeout') or rec.opts.get('timeout')):
@@ -251,10 +274,9 @@ def check_failure(W, rec, tname, args, exc, einfo, ex, owners, story):
         if not any(d['ret'] == 'unpicklable' for u in uids for d in ex.get(u, ())):
             W.bad('C01.d', 'encoding-error-foreign:%s' % rec.kind, 'job %r' % uid)
         return
-    # a task-made exception: some execution of one of this job's own inputs raised it
     raised = [(u, d['exc']) for u in uids for d in ex.get(u, ()) if d['exc']]
     if tname not in [r[1] for r in raised]:
-        W.bad('C01.d', 'foreign-failure:%s:%s:%s' % (rec.kind, tname, story),
+        W.bad('C01.d', 'foreign-failure:%s:%s' % (rec.kind, tname),
               'job %r failed with %s%r; its own executions raised %r' % (uid, tname, args, raised))
         return
     if args and len(args) > 1 and isinstance(args[1], int) and args[1] not in uids:
@@ -262,7 +284,7 @@ def check_failure(W, rec, tname, args, exc, einfo, ex, owners, story):
               'job %r failed with %s%r which belongs to another job' % (uid, tname, args))
 
 
-def check_einfo(W, rec, tname, args, exc, einfo, story):
+def check_einfo(W, rec, tname, args, exc, einfo):
     """C12: the record that reaches the caller."""
     if not hasattr(einfo, 'traceback'):
         W.bad('C12.a', 'no-exception-record:%s' % rec.kind, 'job %r: value %r' % (rec.uid, einfo))
@@ -280,35 +302,37 @@ def check_einfo(W, rec, tname, args, exc, einfo, story):
     from billiard.einfo import DEFAULT_MAX_FRAMES
     if n > DEFAULT_MAX_FRAMES + 3:
         W.bad('C12.b', 'tb-depth-unbounded', 'job %r: %d traceback nodes' % (rec.uid, n))
+    if n >= DEFAULT_MAX_FRAMES:
+        W.k.probe('deep_traceback_truncated')
     if einfo.type is None or einfo.type.__name__ != tname:
         W.bad('C12.a', 'type-mismatch', 'job %r: record type %r, exception %s' % (rec.uid, einfo.type, tname))
+    if tname not in POOL_MADE and not rec.opts.get('bad_arg') and tname != 'MaybeEncodingError':
+        if 'pooltask.py' not in (einfo.traceback or ''):
+            W.bad('C12.a', 'traceback-text-lacks-raising-frame', 'job %r: %.200r' % (rec.uid, einfo.traceback))
 
 
-def judge_imap(W, rec, ex, owners, story):
+def judge_imap(W, rec, ex, owners, cause):
     k = W.k
-    res = rec.res
     if rec.observed and rec.observed[-1][1] == 'timeout':
-        W.bad('C01.a', 'unresolved:%s:%s' % (rec.kind, story),
-              'iterator of job %r stopped delivering: %r' % (rec.uid, [(o[1]) for o in rec.observed][-4:]))
-        if 'died-in-task' in story:
+        dead = unfinished_dead_owners(W, owners, k.steps)
+        jc = 'worker-died-in-task' if dead else ('never-accepted:' + cause if not owners
+                                                 else 'accepted-not-finished:' + cause)
+        W.bad('C01.a', 'unresolved:%s:%s' % (rec.kind, jc),
+              'iterator of job %r stopped delivering: %r' % (rec.uid, [o[1] for o in rec.observed][-4:]))
+        if dead:
             W.bad('C04.e', 'loss-not-reported:%s' % rec.kind,
                   'job %r: a worker died inside an item and the iterator never reported it' % rec.uid)
     for o in rec.observed:
         if o[1] == 'err':
             e = o[2]
-            inner = e.args[0] if e.args else None
+            inner = e.args[0] if getattr(e, 'args', None) else None
             tname, args, exc, einfo = exc_of(inner)
             if tname in ('WorkerLostError', 'Terminated'):
-                first = o[0]
-                ok = False
-                for i, ents in owners.items():
-                    for pid, ack_step, ready_step, _t in ents:
-                        w = W.workers.get(pid)
-                        if w and ready_step is None and w['proc'].dead and w['proc'].death_step <= first:
-                            ok = True
-                if not ok:
-                    W.bad('C01.d', 'lost-without-dead-owner:%s:%s' % (rec.kind, story), 'job %r' % rec.uid)
-                    W.bad('C04.b', 'lost-without-dead-owner:%s:%s' % (rec.kind, story), 'job %r' % rec.uid)
+                if not unfinished_dead_owners(W, owners, o[0]):
+                    W.bad('C01.d', 'lost-without-dead-owner:%s:owner-finished-its-part-then-exited' % rec.kind,
+                          'job %r' % rec.uid)
+                    W.bad('C04.b', 'lost-without-dead-owner:%s:owner-finished-its-part-then-exited' % rec.kind,
+                          'job %r' % rec.uid)
 
 
 def _cause_ok(exc):
@@ -366,7 +390,6 @@ def judge_C02(W, ex):
                     elif not _cause_ok(e):
                         bad('C02.m', 'map-no-remote-traceback', 'job %r' % uid)
             continue
-        # imap / imap_unordered
         cs = rec.chunksize or 1
         chunks = [list(range(i, min(i + cs, len(items)))) for i in range(0, len(items), cs)]
         exp_events = []
@@ -394,29 +417,26 @@ def judge_C02(W, ex):
                 got.append(('stop',))
         body = [g for g in got if g[0] != 'stop']
         stopped = bool(got) and got[-1][0] == 'stop'
+        shape = 'chunked' if cs > 1 else 'cs1'
         if rec.kind == 'imap':
             if body != exp_events[:len(body)]:
-                bad('C02.i', 'imap-order-or-value:%s' % ('chunked' if cs > 1 else 'cs1'),
+                bad('C02.i', 'imap-order-or-value:%s' % shape,
                     'job %r chunksize %d: expected %.160r got %.160r' % (uid, cs, exp_events, body))
             elif len(body) < len(exp_events):
                 after_fail = any(g[0] == 'err' for g in body)
-                bad('C02.i', 'imap-stops-early:%s:%s' % ('chunked' if cs > 1 else 'cs1',
-                                                          'after-failure' if after_fail else 'no-failure'),
+                bad('C02.i', 'imap-stops-early:%s:%s' % (shape, 'after-failure' if after_fail else 'no-failure'),
                     'job %r chunksize %d: %d of %d events delivered then %s'
                     % (uid, cs, len(body), len(exp_events), 'StopIteration' if stopped else 'nothing'))
         else:
-            if sorted(map(repr, body)) != sorted(map(repr, exp_events[:len(body)] if False else exp_events)):
+            if sorted(map(repr, body)) != sorted(map(repr, exp_events)):
                 if len(body) < len(exp_events) and all(repr(b) in set(map(repr, exp_events)) for b in body):
                     after_fail = any(g[0] == 'err' for g in body)
-                    bad('C02.i', 'imap_unordered-stops-early:%s:%s' % ('chunked' if cs > 1 else 'cs1',
-                                                                        'after-failure' if after_fail else 'no-failure'),
+                    bad('C02.i', 'imap_unordered-stops-early:%s:%s' % (shape, 'after-failure' if after_fail
+                                                                        else 'no-failure'),
                         'job %r chunksize %d: %d of %d events' % (uid, cs, len(body), len(exp_events)))
                 else:
-                    bad('C02.i', 'imap_unordered-multiset:%s' % ('chunked' if cs > 1 else 'cs1'),
+                    bad('C02.i', 'imap_unordered-multiset:%s' % shape,
                         'job %r: expected %.160r got %.160r' % (uid, exp_events, body))
-        if len(items) == 0:
-            pass
-    # empty input never touches a worker
     for uid, rec in W.jobs.items():
         if rec.kind != 'apply' and rec.items is not None and len(rec.items) == 0 and rec.returned_handle:
             for (step, t, kind, args) in [m for ms in W.msgs_out.values() for m in ms]:
@@ -424,50 +444,365 @@ def judge_C02(W, ex):
                     bad('C02.e', 'empty-input-reached-worker:%s' % rec.kind, 'job %r' % uid)
 
 
-def judge_C07(W, ex):
+# ---------------------------------------------------------------------- C03
+def judge_C03(W, ex):
+    k = W.k
+    bad = W.bad
+    pc = W.case['pool']
+    nacked = set()      # (pid, job)
+    for e in k.log:
+        if e[2] == 'syn' and e[5] == NACK:
+            nacked.add((e[3], e[4]))
+    begin_by_pid = {}
+    for e in k.log:
+        if e[2] == 'exec-begin':
+            begin_by_pid.setdefault(e[4], []).append((e[0], e[3]))
+    for pid, msgs in W.msgs_out.items():
+        w = W.workers.get(pid)
+        pend = None
+        nready = 0
+        for (step, t, kind, args) in msgs:
+            if kind == ACK:
+                if pend is not None and (pid, pend[0]) not in nacked:
+                    bad('C03.a', 'second-accept-before-result', 'worker %d accepted job %r while %r had no result'
+                        % (pid, args[0], pend[0]))
+                pend = (args[0], args[1], step, t, args)
+                if args[3] != pid:
+                    bad('C03.b', 'accept-carries-wrong-pid', 'worker %d announced pid %r' % (pid, args[3]))
+                if w is not None and not (w['start_time'] - 1e-9 <= args[2] <= t + 1e-9):
+                    bad('C03.b', 'accept-time-out-of-range',
+                        'worker %d: acceptance time %r, worker started %r, message written at %r'
+                        % (pid, args[2], w['start_time'], t))
+            elif kind == READY:
+                if pend is None or (pend[0], pend[1]) != (args[0], args[1]):
+                    bad('C03.a', 'result-without-accept', 'worker %d sent a result for %r; pending accept %r'
+                        % (pid, args[:2], pend and pend[:2]))
+                else:
+                    rec = W.job_by_id.get(args[0])
+                    if rec is not None:
+                        # the program ran between the two messages, in this worker
+                        uids = [rec.uid] if rec.kind == 'apply' else [it[0] for it in rec.items]
+                        ran = [b for b in begin_by_pid.get(pid, ()) if pend[2] <= b[0] <= step and b[1] in uids]
+                        if not ran:
+                            bad('C03.a', 'result-without-execution-between',
+                                'worker %d job %r: no execution between its accept and result messages' % (pid, args[0]))
+                nready += 1
+                pend = None
+            elif kind == DEATH:
+                pass
+        # quota
+        quota = pc.get('maxtasksperchild')
+        if quota and w is not None:
+            nexec = len(begin_by_pid.get(pid, ()))
+            if rec_is_apply_only(W):
+                if nexec > quota:
+                    bad('C03.q', 'quota-exceeded', 'worker %d executed %d jobs, quota %d' % (pid, nexec, quota))
+                st = w['proc'].status
+                memlim = pc.get('max_memory_per_child')
+                if st == ('exit', EX_RECYCLE) and nexec != quota and not w['proc'].info.get('executing') and \
+                        not (memlim and w['proc'].rss > memlim):
+                    bad('C03.q', 'recycle-status-before-quota', 'worker %d exited with the recycle status after %d of %d jobs'
+                        % (pid, nexec, quota))
+    # NACK honoured: a refused job never executes
+    for (pid, job) in nacked:
+        rec = W.job_by_id.get(job)
+        if rec is not None and ex.get(rec.uid):
+            bad('C03.n', 'refused-job-executed', 'job %r was refused (NACK) but executed by %r'
+                % (rec.uid, [d['pid'] for d in ex[rec.uid]]))
+    # parent side: accept callback before the result callback, owner recorded
+    for uid, rec in W.jobs.items():
+        if rec.kind != 'apply' or not rec.returned_handle:
+            continue
+        acc = [c for c in rec.cbs if c[2] == 'acc']
+        fin = [c for c in rec.cbs if c[2] in ('ok', 'err')]
+        owners = owners_info(W, rec)
+        if fin and owners and not rec.opts.get('bad_arg'):
+            tname = None
+            if rec.res.ready() and not rec.res._success:
+                tname = exc_of(rec.res._value)[0]
+            if tname not in POOL_MADE:
+                if not acc:
+                    bad('C03.p', 'result-callback-without-accept-callback', 'job %r' % uid)
+                elif acc[0][0] > fin[0][0]:
+                    bad('C03.p', 'accept-callback-after-result-callback', 'job %r' % uid)
+        if acc and owners:
+            ents = owners.get(None) or []
+            apid, atime = acc[0][3][0]
+            if ents and (apid, atime) != (ents[0][4][3], ents[0][4][2]):
+                bad('C03.p', 'accept-callback-wrong-arguments', 'job %r: callback got %r, worker sent %r'
+                    % (uid, (apid, atime), (ents[0][4][3], ents[0][4][2])))
+            if ents and rec.res._worker_pid != ents[-1][0] and not rec.cancelled:
+                bad('C03.p', 'owner-not-recorded', 'job %r: _worker_pid %r, accepted by %r'
+                    % (uid, rec.res._worker_pid, ents[-1][0]))
+
+
+def rec_is_apply_only(W):
+    return all(r.kind == 'apply' for r in W.jobs.values())
+
+
+# ---------------------------------------------------------------------- C04
+def judge_C04(W, ex):
+    k = W.k
+    bad = W.bad
+    pc = W.case['pool']
+    if W.case['prop'] not in ('C04', 'C01', 'C09'):
+        return
+    died = {}       # uid -> (pid, status)
+    for uid, runs in ex.items():
+        for d in runs:
+            w = W.workers.get(d['pid'])
+            if w and w['proc'].dead and d['end'] is None and w['proc'].status is not None:
+                died[uid] = (d['pid'], w['proc'].status)
+    if died:
+        k.probe('worker_died_in_task', len(died))
+    term_step = W.term_calls[0]['t0'][0] if W.term_calls else None
+    for uid, (pid, status) in died.items():
+        juid = W.item_owner.get(uid)
+        rec = W.jobs.get(juid)
+        if rec is None or rec.discarded or not rec.returned_handle:
+            continue
+        proc = W.workers[pid]['proc']
+        if term_step is not None and proc.death_step >= term_step:
+            continue        # killed by terminate(), not a fault
+        if status[0] == 'signal' and status[1] in (15, 9) and (pc.get('timeout') or rec.opts.get('timeout')):
+            continue        # time-limit kill: C05's business
+        res = rec.res
+        if rec.kind in ('imap', 'imap_unordered'):
+            errs = [exc_of(o[2].args[0] if getattr(o[2], 'args', None) else None) for o in rec.observed if o[1] == 'err']
+            if not any(e[0] == 'WorkerLostError' for e in errs):
+                if not (rec.observed and rec.observed[-1][1] == 'timeout'):
+                    bad('C04.a', 'died-in-task-not-reported-lost:%s' % rec.kind,
+                        'job %r item %r: worker %d died (%r) inside it; iterator events %r'
+                        % (juid, uid, pid, status, [o[1] for o in rec.observed]))
+            continue
+        if not res.ready():
+            continue        # C01.a / C04.e report it
+        if res._success:
+            bad('C04.a', 'died-in-task-but-succeeded:%s' % rec.kind, 'job %r: worker %d died (%r) inside it'
+                % (juid, pid, status))
+            continue
+        tname, args, exc, einfo = exc_of(res._value)
+        if tname not in ('WorkerLostError', 'Terminated'):
+            others = [u for u in ([it[0] for it in rec.items] if rec.items else []) if u != uid]
+            if rec.kind != 'apply' and any(d['exc'] == tname for u in others for d in ex.get(u, ())):
+                continue    # another input of the same map failed first: also a legitimate outcome
+            if tname == 'TimeLimitExceeded':
+                continue
+            bad('C04.a', 'died-in-task-wrong-outcome:%s:%s' % (rec.kind, tname),
+                'job %r: worker %d died (%r) inside it, outcome %s%r' % (juid, pid, status, tname, args))
+            continue
+        # timing: no earlier than the lost-worker timeout after detection, no later than + one period
+        lost = getattr(res, '_worker_lost', None)
+        T_ = rec.opts.get('lost_worker_timeout') or pc.get('lost_worker_timeout') or 10.0
+        if lost and rec.first and not W.case.get('sleep_jitter') and tname == 'WorkerLostError':
+            dt = rec.first[1] - lost[0]
+            if dt < T_ - 1e-6:
+                bad('C04.c', 'lost-too-early:%s' % rec.kind,
+                    'job %r failed %.3fs after the death was noticed; lost-worker timeout %.1fs' % (juid, dt, T_))
+            elif dt > T_ + 1.15 and W.closed_at is None:
+                bad('C04.c', 'lost-too-late:%s' % rec.kind,
+                    'job %r failed %.3fs after the death was noticed; lost-worker timeout %.1fs (+ one period)'
+                    % (juid, dt, T_))
+    # (d) pool size restored once the jobs drained (before close)
+    snap = W.marks.get('pool_at_drain_end')
+    if snap and died and snap['state'] == 0 and W.case['prop'] == 'C04' and k.host_exit is None:
+        if snap['len'] != snap['processes']:
+            bad('C04.d', 'pool-size-not-restored', 'after the losses the pool holds %d workers, target %d'
+                % (snap['len'], snap['processes']))
+
+
+# ---------------------------------------------------------------------- C05
+def judge_C05(W, ex):
+    k = W.k
+    bad = W.bad
+    pc = W.case['pool']
+    if W.case['prop'] not in ('C05',):
+        return
+    kills = [e for e in k.log if e[2] in ('kill', 'killpg')]
+    if any(e[2] == 'killpg' for e in kills):
+        k.probe('killpg_branch')
+    nlimited = 0
+    for uid, rec in W.jobs.items():
+        if rec.kind != 'apply' or not rec.returned_handle:
+            continue
+        res = rec.res
+        lim = rec.opts.get('timeout') or pc.get('timeout')
+        acc_t = res._time_accepted if isinstance(res._time_accepted, (int, float)) else None
+        if not res.ready():
+            continue
+        tname = None if res._success else exc_of(res._value)[0]
+        if tname == 'TimeLimitExceeded':
+            nlimited += 1
+            k.probe('hard_limit_fired')
+            args = exc_of(res._value)[1]
+            if lim is None:
+                continue
+            if args and args[0] != lim:
+                bad('C05.e', 'wrong-limit-reported', 'job %r: TimeLimitExceeded%r, effective limit %r (own %r, pool %r)'
+                    % (uid, args, lim, rec.opts.get('timeout'), pc.get('timeout')))
+            if acc_t is not None and rec.first:
+                el = rec.first[1] - acc_t
+                if el < lim - 1e-6:
+                    bad('C05.d', 'timed-out-before-limit', 'job %r failed after %.3fs, limit %.2fs' % (uid, el, lim))
+                late = el - lim
+                if late > 1.0 + 0.15 * len(W.jobs) + 0.05 and pc.get('threads', True):
+                    bad('C05.a', 'timed-out-late', 'job %r failed %.3fs after its limit expired (scan period 1s)'
+                        % (uid, late))
+            # (b) the process that ran it is gone
+            pid = res._worker_pid
+            w = W.workers.get(pid)
+            if w is not None:
+                p = w['proc']
+                if not p.dead:
+                    bad('C05.b', 'worker-survived-hard-limit', 'job %r: pid %d still alive at the end' % (uid, pid))
+                elif rec.first and p.death_time is not None and p.death_time - rec.first[1] > 2.5:
+                    bad('C05.b', 'worker-lingered', 'job %r: pid %d died %.2fs after the job was failed'
+                        % (uid, pid, p.death_time - rec.first[1]))
+        else:
+            # a job that ran longer than its limit (+ one scan) must not have been left alone
+            if lim is not None and acc_t is not None and rec.first and pc.get('threads', True):
+                el = rec.first[1] - acc_t
+                if el > lim + 1.0 + 0.15 * len(W.jobs) + 0.05:
+                    bad('C05.a', 'limit-not-enforced', 'job %r resolved (%s) %.3fs after acceptance, limit %.2fs'
+                        % (uid, tname or 'success', el, lim))
+    W.subj('hard_limited_jobs', nlimited)
+
+
+# ---------------------------------------------------------------------- C06
+def judge_C06(W, ex):
+    k = W.k
+    bad = W.bad
+    pc = W.case['pool']
+    if W.case['prop'] != 'C06':
+        return
+    # SIGUSR1 sent by the pool: (step, time, pid)
+    usr1 = [(e[0], e[3]) for e in k.log if e[2] == 'kill' and e[4] == 10 and 'TimeoutHandler' in e[1]]
+    scans = [e for e in k.log if e[2] == 'sleep' and 'TimeoutHandler' in e[1]]
+    for uid, rec in W.jobs.items():
+        if rec.kind != 'apply' or not rec.returned_handle:
+            continue
+        res = rec.res
+        soft = rec.opts.get('soft_timeout') or pc.get('soft_timeout')
+        hard = rec.opts.get('timeout') or pc.get('timeout')
+        runs = ex.get(uid, [])
+        if not runs:
+            continue
+        d = runs[0]
+        pid = d['pid']
+        last = d['end'] if d['end'] is not None else k.steps
+        owners = owners_info(W, rec)
+        ack_step = min([e[1] for ents in owners.values() for e in ents] or [d['begin']])
+        mine = [s for (s, p) in usr1 if p == pid and ack_step <= s and (rec.first is None or s <= rec.first[0] + 50)
+                and s <= last + 200]
+        # restrict to signals sent while this job owned the worker: between its accept and the next accept
+        nxt = [m[0] for m in W.msgs_out.get(pid, ()) if m[2] == ACK and m[0] > ack_step]
+        upper = min(nxt) if nxt else k.steps + 1
+        mine = [s for (s, p) in usr1 if p == pid and ack_step <= s < upper]
+        tos = [c for c in rec.cbs if c[2] == 'to' and c[3][1] and c[3][1].get('soft')]
+        if soft is None:
+            if mine:
+                bad('C06.b', 'soft-signal-without-soft-limit', 'job %r got %d SIGUSR1' % (uid, len(mine)))
+            continue
+        if len(mine) > 1:
+            bad('C06.a', 'soft-signal-repeated', 'job %r: %d SIGUSR1 sent on its behalf (soft limit %.2fs)'
+                % (uid, len(mine), soft))
+        if len(tos) > 1:
+            bad('C06.e', 'soft-callback-repeated', 'job %r: timeout_callback(soft=True) called %d times' % (uid, len(tos)))
+        for c in tos:
+            if c[3][1].get('timeout') != soft:
+                bad('C06.e', 'soft-callback-wrong-limit', 'job %r: callback got %r, effective soft limit %r'
+                    % (uid, c[3][1], soft))
+        if mine:
+            k.probe('soft_limit_fired')
+            if len(tos) != len(mine):
+                bad('C06.e', 'soft-callback-count', 'job %r: %d signals, %d callbacks' % (uid, len(mine), len(tos)))
+            if rec.first is not None and mine[0] > rec.first[0]:
+                bad('C06.c', 'soft-signal-after-result-processed', 'job %r: SIGUSR1 at step %d, result processed at %d'
+                    % (uid, mine[0], rec.first[0]))
+            if d['end'] is not None and mine[0] > d['end']:
+                k.probe('soft_signal_after_program_end')
+        # a scan inside [accept+soft, accept+hard) while still running => exactly one signal, surfaced in the task
+        acc_t = res._time_accepted if isinstance(res._time_accepted, (int, float)) else None
+        if acc_t is not None:
+            end_t = rec.first[1] if rec.first else k.now
+            in_window = [e for e in scans if acc_t + soft <= e[4] - 1e-9 and e[4] < min(end_t, acc_t + (hard or 1e9)) - 0.2]
+            if in_window and not mine and pc.get('threads', True):
+                bad('C06.d', 'soft-limit-not-delivered', 'job %r ran past its soft limit (%.2fs) across %d scans, no signal'
+                    % (uid, soft, len(in_window)))
+        if mine:
+            surfaced = d['exc'] == 'SoftTimeLimitExceeded' or any(e[2] == 'soft-caught' and e[3] == uid for e in k.log)
+            if d['end'] is not None and mine[0] < d['end'] - 3 and not surfaced and d['exc'] is None:
+                bad('C06.d', 'soft-limit-not-raised-in-task', 'job %r: signal sent at step %d, program ended at %d without '
+                    'seeing SoftTimeLimitExceeded' % (uid, mine[0], d['end']))
+            if any(e[2] == 'soft-caught' and e[3] == uid for e in k.log):
+                k.probe('soft_limit_caught')
+                if res.ready() and not (res._success and res._value == ('v', uid, 'soft-caught')):
+                    tn = None if res._success else exc_of(res._value)[0]
+                    if tn != 'TimeLimitExceeded':
+                        bad('C06.g', 'caught-soft-limit-value-not-delivered', 'job %r: outcome %r'
+                            % (uid, res._value if res._success else tn))
+
+
+def guard_cause(W, pid):
+    """Why was a worker's result never counted as consumed?"""
+    k = W.k
+    reg = next((e[0] for e in k.log if e[2] == 'worker-registered' and e[3] == pid), None)
+    readies = [(m[3][0], m[3][1]) for m in W.msgs_out.get(pid, ()) if m[2] == READY]
+    consumed = {}
+    for e in k.log:
+        if e[2] == 'result-consumed':
+            consumed.setdefault((e[3], e[4]), e[0])
+    if any(key not in consumed for key in readies):
+        return 'result-never-read-by-parent'
+    if reg is None or any(consumed[key] < reg for key in readies):
+        return 'result-consumed-before-worker-registered'
+    return 'other'
+
+
+# ---------------------------------------------------------------------- C07
+def judge_C07(W, ex, cause):
     k = W.k
     bad = W.bad
     if W.closed_at is None:
         return
     pc = W.case['pool']
-    # guard exhaustion (recorded by the wrapper around Worker._ensure_messages_consumed)
+    term_step = W.term_calls[0]['t0'][0] if W.term_calls else None
     for e in k.log:
         if e[2] == 'guard':
             pid, ok, elapsed, completed = e[3], e[4], e[5], e[6]
             if not ok and elapsed >= 25.0:
                 k.probe('guard_loop_exhausted')
-                term = W.term_calls and W.term_calls[0]['t0'][0] <= e[0]
-                if not term:
-                    bad('C07.g', 'guard-exhausted:%s' % job_story_pool(W),
+                if not (term_step is not None and term_step <= e[0]):
+                    why = guard_cause(W, pid)
+                    bad('C07.g', 'guard-exhausted:%s' % why,
                         'worker %d waited out its result-consumption guard (%.1fs, %d completed) although the '
-                        'parent kept consuming results' % (pid, elapsed, completed))
+                        'parent kept consuming results (%s)' % (pid, elapsed, completed, why))
     jr = W.marks.get('join_ret')
     if jr is None:
         return
-    # every job submitted before close resolved with its real result
-    for uid, rec in W.jobs.items():
-        if rec.after_close or not rec.returned_handle or rec.discarded:
-            continue
-        if rec.submitted[0] > W.closed_at[0]:
-            continue
-        res = rec.res
-        if rec.kind in ('imap', 'imap_unordered'):
-            if not res.ready() and not (res._length is not None and res._index == res._length):
-                bad('C07.a', 'unresolved-at-join:%s:%s' % (rec.kind, job_story_pool(W)), 'job %r' % uid)
-            continue
-        if not res.ready():
-            bad('C07.a', 'unresolved-at-join:%s:%s' % (rec.kind, job_story_pool(W)),
-                'job %r submitted before close() is unresolved after join()' % uid)
-        elif not res._success:
-            tname, args, exc, einfo = exc_of(res._value)
-            if tname in POOL_MADE and not any(w['proc'].info.get('executing') for w in W.workers.values()
-                                              if w['proc'].dead):
-                bad('C07.a', 'pool-made-failure-after-close:%s:%s:%s' % (rec.kind, tname, job_story_pool(W)),
-                    'job %r: %s%r' % (uid, tname, args))
+    if W.case['prop'] == 'C07':
+        for uid, rec in W.jobs.items():
+            if rec.after_close or not rec.returned_handle or rec.discarded:
+                continue
+            if rec.submitted[0] > W.closed_at[0]:
+                continue
+            res = rec.res
+            if rec.kind in ('imap', 'imap_unordered'):
+                if not res.ready() and not (res._length is not None and res._index == res._length):
+                    bad('C07.a', 'unresolved-at-join:%s:%s' % (rec.kind, cause), 'job %r' % uid)
+                continue
+            if not res.ready():
+                bad('C07.a', 'unresolved-at-join:%s:%s' % (rec.kind, cause),
+                    'job %r submitted before close() is unresolved after join()' % uid)
+            elif not res._success:
+                tname, args, exc, einfo = exc_of(res._value)
+                if tname in POOL_MADE:
+                    bad('C07.a', 'pool-made-failure-after-close:%s:%s' % (rec.kind, tname), 'job %r: %s%r' % (uid, tname, args))
     last_res = max([r.first[1] for r in W.jobs.values() if r.first] + [W.closed_at[1]])
     tail = jr[1] - max(last_res, W.closed_at[1])
     if tail >= 25.0 and not W.case.get('sleep_jitter'):
-        bad('C07.t', 'join-slow:%s' % job_story_pool(W),
+        whys = sorted(set(guard_cause(W, e[3]) for e in k.log if e[2] == 'guard' and not e[4] and e[5] >= 25.0))
+        bad('C07.t', 'join-slow:%s' % ('+'.join(whys) or 'no-guard-exhausted'),
             'join() returned %.1fs after the later of close() and the last resolution' % tail)
     snap = W.marks.get('after_join')
     if snap:
@@ -475,21 +810,344 @@ def judge_C07(W, ex):
             if not dead:
                 bad('C07.p', 'worker-alive-after-join', 'pid %d' % pid)
             elif not reaped:
-                bad('C07.p', 'worker-not-reaped-after-join:%s' % job_story_pool(W), 'pid %d status %r' % (pid, status))
+                bad('C07.p', 'worker-not-reaped-after-join', 'pid %d status %r' % (pid, status))
         for name in ('Supervisor', 'TaskHandler', 'ResultHandler'):
             st = snap['threads'].get(name)
             if pc.get('threads', True) and st is not None and st != 'done':
                 bad('C07.p', 'thread-running-after-join:%s' % name, 'state %s' % st)
 
 
+# ---------------------------------------------------------------------- C08
+def judge_C08(W, ex):
+    k = W.k
+    bad = W.bad
+    for tc in W.term_calls:
+        dur = tc['t1'][1] - tc['t0'][1]
+        if dur > 60.0:
+            bad('C08.t', 'terminate-slow:%s' % tc['how'], 'terminate() took %.1f simulated seconds' % dur)
+        for pid, (dead, reaped, status) in tc['snap']['workers'].items():
+            if not dead:
+                bad('C08.p', 'worker-alive-after-terminate:%s' % tc['how'], 'pid %d' % pid)
+        for name, st in (tc.get('snap_late') or tc['snap'])['threads'].items():
+            if st != 'done' and (name != 'Supervisor' or 'snap_late' in tc):
+                bad('C08.p', 'thread-running-after-terminate:%s' % name, 'how=%s state %s' % (tc['how'], st))
+    # a worker that receives a termination signal stops its task, runs its exit callback and exits
+    delivered = {}      # pid -> (step, sig, label)
+    for e in k.log:
+        if e[2] == 'sig-deliver' and e[4] in TERMSIGS and e[3] in W.workers and e[3] not in delivered:
+            delivered[e[3]] = (e[0], e[4], e[5])
+    for pid, (step, sig, label) in delivered.items():
+        w = W.workers[pid]
+        p = w['proc']
+        if label == 'sleep' and not p.info.get('executing'):
+            k.probe('signalled_during_exit_sleep')
+        later_ticks = [e for e in k.log if e[0] > step and e[2] in ('tick', 'exec-begin') and e[1].startswith('W%d.' % pid)]
+        if later_ticks:
+            what = 'took-another-job' if any(e[2] == 'exec-begin' for e in later_ticks) else 'kept-running-its-task'
+            bad('C08.s', 'signalled-worker-%s' % what,
+                'worker %d got signal %d at step %d (%s) and later %s (%d more task steps)'
+                % (pid, sig, step, label, what, len(later_ticks)))
+        if not p.dead:
+            bad('C08.s', 'signalled-worker-still-alive', 'worker %d got signal %d at step %d' % (pid, sig, step))
+        elif p.status[0] == 'exit' and 'on_exit' not in p.info and p.status != ('exit', 70):
+            bad('C08.s', 'exit-callback-not-run', 'worker %d got signal %d, exited %r without running on_exit'
+                % (pid, sig, p.status))
+
+
+# ---------------------------------------------------------------------- C09
+def judge_C09(W, ex):
+    k = W.k
+    bad = W.bad
+    pc = W.case['pool']
+    quota = pc.get('maxtasksperchild')
+    memlim = pc.get('max_memory_per_child')
+    if W.case['prop'] != 'C09':
+        return
+    term_step = W.term_calls[0]['t0'][0] if W.term_calls else k.steps + 1
+    nexec = {}
+    for uid, runs in ex.items():
+        for d in runs:
+            nexec[d['pid']] = nexec.get(d['pid'], 0) + 1
+    ready_count = {}
+    for pid, msgs in W.msgs_out.items():
+        ready_count[pid] = sum(1 for m in msgs if m[2] == READY)
+    for pid, w in W.workers.items():
+        p = w['proc']
+        n = ready_count.get(pid, 0)
+        if quota and n > quota:
+            bad('C09.q', 'quota-exceeded', 'worker %d completed %d jobs, quota %d' % (pid, n, quota))
+        if p.status == ('exit', EX_RECYCLE):
+            k.probe('worker_recycled')
+            hit_mem = memlim and p.rss > memlim
+            if hit_mem:
+                k.probe('memory_limit_exit')
+            if not hit_mem and (not quota or n != quota) and not p.info.get('executing'):
+                bad('C09.q', 'recycle-status-without-reason', 'worker %d exited with the recycle status after %d jobs '
+                    '(quota %r, rss %r / limit %r)' % (pid, n, quota, p.rss, memlim))
+        elif p.status is not None and p.death_step < term_step and W.closed_at is None:
+            if quota and n == quota and p.status[0] == 'exit' and not p.info.get('executing') and \
+                    p.status[1] in (0, 1):
+                bad('C09.q', 'quota-reached-wrong-status', 'worker %d completed its %d jobs and exited with %r'
+                    % (pid, quota, p.status))
+        for e in k.log:
+            if e[2] == 'guard' and e[3] == pid and not e[4] and e[5] >= 25.0 and e[0] < term_step:
+                bad('C09.g', 'recycled-worker-waited-out-guard:%s' % guard_cause(W, pid),
+                    'worker %d waited %.1fs for its results to be consumed' % (pid, e[5]))
+    # each program executed exactly once unless its worker died inside it
+    for uid, runs in ex.items():
+        if len(runs) > 1:
+            bad('C09.j', 'job-executed-twice', 'input %r executed by %r' % (uid, [d['pid'] for d in runs]))
+    for chk in W.size_checks:
+        if chk['state'] == 0 and k.host_exit is None:
+            if chk['len'] != chk['processes']:
+                bad('C09.a', 'size-at-rest:%s' % ('below' if chk['len'] < chk['processes'] else 'above'),
+                    'at rest the pool holds %d workers, target %d (grow/shrink-adjusted %d)'
+                    % (chk['len'], chk['processes'], chk['target']))
+            if len(set(chk['indices'])) != len(chk['indices']):
+                bad('C09.a', 'duplicate-slot-index', 'indices %r' % (chk['indices'],))
+
+
+# ---------------------------------------------------------------------- C10
+def judge_C10(W, ex):
+    bad = W.bad
+    if W.case['prop'] != 'C10':
+        return
+    for chk in W.slot_checks:
+        if chk['unresolved']:
+            continue
+        if chk['value'] != chk['bound']:
+            why = []
+            if any(r.opts.get('bad_arg') for r in W.jobs.values()):
+                why.append('send-failure')
+            if any(r.first and not r.res._success and exc_of(r.res._value)[0] == 'TimeLimitExceeded'
+                   for r in W.jobs.values() if r.kind == 'apply' and r.res is not None and r.first):
+                why.append('hard-limit')
+            if any(w['proc'].dead for w in W.workers.values()):
+                why.append('worker-exit')
+            bad('C10.q', 'slots-not-all-free-at-rest:%s' % ('+'.join(why) or 'plain'),
+                'all jobs resolved, semaphore value %d, bound %d' % (chk['value'], chk['bound']))
+
+
+# ---------------------------------------------------------------------- C11
+def judge_C11(W, ex):
+    k = W.k
+    bad = W.bad
+    pc = W.case['pool']
+    if W.case['prop'] != 'C11':
+        return
+    maxR, maxT = pc.get('max_restarts'), pc.get('max_restart_freq') or 1
+    t0 = k.cfg.get('t0', 1000.0)
+    # history: Supervisor reaps (time, status) ; worker starts (time) ; acceptances consumed (time)
+    sup = [e for e in k.log if 'Supervisor' in e[1]]
+    events = []
+    for e in k.log:
+        if e[2] == 'reaped' and 'Supervisor' in e[1]:
+            events.append((e[0], 'exit', e[4]))
+        elif e[2] == 'worker-start' and 'Supervisor' in e[1]:
+            events.append((e[0], 'start', e[3]))
+    accept_steps = sorted(c[0] for r in W.jobs.values() for c in r.cbs if c[2] == 'acc')
+    refused = [e for e in k.log if e[2] == 'host-signal' and e[3] == 15]
+    if refused:
+        k.probe('restart_limit_hit')
+    # reference model of the limiter, driven by the abnormal exits the supervisor reaped
+    time_of = {}
+    for e in k.log:
+        time_of[e[0]] = None
+    # we need simulated times: take them from the 'sleep' log of the supervisor (recorded with now)
+    now_at = {}
+    last_now = t0
+    for e in k.log:
+        if e[2] == 'sleep':
+            last_now = e[4]
+        now_at[e[0]] = last_now
+    passes = [e for e in k.log if e[2] == 'sleep' and 'Supervisor' in e[1]]
+    R, Tw = 0, None
+    burst_passes = 10
+    npass = 0
+    ai = 0
+    i = 0
+    model_refused = False
+    # group reaps by supervision pass: a pass = reaps followed by starts before the next supervisor sleep
+    seq = []
+    for e in k.log:
+        if 'Supervisor' in e[1] and e[2] in ('reaped', 'worker-start', 'sleep'):
+            seq.append(e)
+    cur_exits = []
+    actual_starts = 0
+    for e in seq:
+        if e[2] == 'reaped':
+            cur_exits.append(e)
+        elif e[2] == 'worker-start':
+            actual_starts += 1
+        elif e[2] == 'sleep':
+            npass += 1
+            if cur_exits and npass > burst_passes + 1:
+                now = e[4]
+                while ai < len(accept_steps) and accept_steps[ai] <= cur_exits[0][0]:
+                    R = 0
+                    ai += 1
+                for x in cur_exits:
+                    st = x[4]
+                    abnormal = not (st[0] == 'exit' and st[1] in (0, EX_RECYCLE))
+                    if not abnormal:
+                        continue
+                    if Tw is not None and now - Tw >= maxT:
+                        Tw, R = now, 0
+                    elif maxR and R >= maxR:
+                        model_refused = True
+                        R = 0
+                    if Tw is None:
+                        Tw = now
+                    R += 1
+            cur_exits = []
+    W.subj('abnormal_restarts', R)
+    if refused and not model_refused and npass > burst_passes + 1:
+        # only flag when the history leaves no doubt: fewer abnormal exits than the budget in the whole run
+        abn = sum(1 for e in seq if e[2] == 'reaped' and not (e[4][0] == 'exit' and e[4][1] in (0, EX_RECYCLE)))
+        if maxR and abn <= maxR and abn < 10 * pc['processes']:
+            bad('C11.r', 'refused-within-budget', 'RestartFreqExceeded after %d abnormal exits, budget %d per %.1fs'
+                % (abn, maxR, maxT))
+    # too many admitted: abnormal-exit replacements within one window with no acceptance in between
+    starts = [(e[0], now_at.get(e[0], t0)) for e in seq if e[2] == 'worker-start']
+    abn_reaps = [(e[0], now_at.get(e[0], t0)) for e in seq if e[2] == 'reaped' and
+                 not (e[4][0] == 'exit' and e[4][1] in (0, EX_RECYCLE))]
+    if maxR and not refused:
+        # sliding check on reaps after the start-up phase
+        late = [r for r in abn_reaps if r[1] > t0 + 2.5]
+        for a in range(len(late)):
+            win = [r for r in late[a:] if r[1] - late[a][1] < maxT - 1e-9]
+            if len(win) > maxR + 0 and not any(late[a][0] < s <= win[-1][0] for s in accept_steps):
+                # window opened by the first of them: more than maxR admitted without RestartFreqExceeded
+                if len(win) > maxR:
+                    bad('C11.r', 'restarts-above-budget', '%d abnormal exits replaced within %.2fs (budget %d per %.1fs), '
+                        'no job accepted in between, no RestartFreqExceeded' % (len(win), win[-1][1] - late[a][1], maxR, maxT))
+                    break
+
+
+def judge_C11b(W, ex):
+    """The limiter as the pool drives it, against a model written from the property text.
+
+    Inputs of the model: the instants at which the pool asked for a restart (every rs-step record, made
+    by the wrapper around restart_state.step) and the instants at which a job was accepted (accept
+    callbacks: ResultHandler.on_ack zeroes the counter right before running them)."""
+    k = W.k
+    bad = W.bad
+    if W.case['prop'] != 'C11':
+        return
+    steps = [e for e in k.log if e[2] == 'rs-step']
+    accept_steps = sorted(c[0] for r in W.jobs.values() for c in r.cbs if c[2] == 'acc')
+    models = {}
+    ai = 0
+    for e in steps:
+        st, serial, maxR, maxT, Rb, Tb, now, outcome = e[0], e[3], e[4], e[5], e[6], e[7], e[8], e[9]
+        m = models.setdefault(serial, {'count': 0, 'start': None})
+        # acceptances since the previous request zero the count (of the pool's configured limiter)
+        while ai < len(accept_steps) and accept_steps[ai] <= st:
+            for mm in models.values():
+                mm['count'] = 0
+            ai += 1
+        if m['start'] is not None and now - m['start'] >= maxT:
+            m['start'], m['count'] = None, 0
+        if maxR and m['count'] >= maxR:
+            expect = 'refused'
+            m['count'] = 0
+        else:
+            expect = 'admitted'
+        if expect == 'admitted':
+            if m['start'] is None:
+                m['start'] = now
+            m['count'] += 1
+        if outcome != expect:
+            kindl = 'burst' if maxT == 1 and maxR == 10 * W.case['pool']['processes'] else 'configured'
+            bad('C11.r', 'limiter-%s-should-have-%s:%s' % (outcome, expect, kindl),
+                'restart request at t=%.3f: limiter (budget %r per %rs, count %r, window start %r) %s it; the '
+                'model (%d admitted in the current window) says %s' % (now, maxR, maxT, Rb, Tb, outcome,
+                                                                        m['count'], expect))
+            break
+    # the pool consults the limiter once per abnormal exit, never for clean/recycle exits, and does not fork
+    # after a refusal
+    seq = [e for e in k.log if 'Supervisor' in e[1] and e[2] in ('reaped', 'worker-start', 'sleep', 'rs-step')]
+    cur = {'abn': 0, 'clean': 0, 'steps': 0, 'refused': False}
+    for e in seq:
+        if e[2] == 'reaped':
+            if e[4][0] == 'exit' and e[4][1] in (0, EX_RECYCLE):
+                cur['clean'] += 1
+            else:
+                cur['abn'] += 1
+        elif e[2] == 'rs-step':
+            cur['steps'] += 1
+            if e[9] == 'refused':
+                cur['refused'] = True
+        elif e[2] == 'worker-start':
+            if cur['refused']:
+                bad('C11.r', 'forked-after-refusal', 'a worker was started after RestartFreqExceeded in the same pass')
+        elif e[2] == 'sleep':
+            if cur['steps'] > cur['abn'] and not cur['refused'] and not W.resize_seen():
+                bad('C11.r', 'limiter-consulted-for-clean-exit',
+                    'pass with %d abnormal and %d clean/recycle exits asked the limiter %d times'
+                    % (cur['abn'], cur['clean'], cur['steps']))
+            if cur['steps'] < cur['abn'] and not cur['refused'] and W.pool._state == 0:
+                bad('C11.r', 'limiter-not-consulted', 'pass with %d abnormal exits asked the limiter %d times'
+                    % (cur['abn'], cur['steps']))
+            cur = {'abn': 0, 'clean': 0, 'steps': 0, 'refused': False}
+    W.subj('limiter_requests', len(steps))
+
+
+# ---------------------------------------------------------------------- C12
+def judge_C12(W, ex):
+    k = W.k
+    bad = W.bad
+    for uid, rec in W.jobs.items():
+        if rec.kind != 'apply' or not rec.returned_handle or rec.prog is None:
+            continue
+        nat = natural_static(rec.prog, uid)
+        res = rec.res
+        if nat[0] == 'unpicklable' and res.ready() and W.case['prop'] == 'C12':
+            k.probe('unpicklable_result')
+            if res._success:
+                bad('C12.m', 'unserialisable-result-delivered', 'job %r' % uid)
+            else:
+                tname = exc_of(res._value)[0]
+                if tname != 'MaybeEncodingError' and tname not in POOL_MADE:
+                    bad('C12.m', 'unserialisable-result-wrong-error:%s' % tname, 'job %r' % uid)
+            for d in ex.get(uid, ()):
+                w = W.workers.get(d['pid'])
+                tstep = W.term_calls[0]['t0'][0] if W.term_calls else k.steps
+                if w and w['proc'].dead and w['proc'].death_step < min(tstep, (W.closed_at or (k.steps,))[0]) and \
+                        w['proc'].status not in (('exit', EX_RECYCLE),):
+                    bad('C12.m', 'worker-died-on-unserialisable-result', 'job %r: worker %d status %r'
+                        % (uid, d['pid'], w['proc'].status))
+        if W.case['prop'] == 'C12' and nat[0] == 'exc' and res.ready() and not res._success:
+            tname, args, exc, einfo = exc_of(res._value)
+            if tname != nat[1] or (nat[2] is not None and args != nat[2]):
+                bad('C12.a', 'exception-changed:%s' % nat[1], 'job %r: expected %r got %s%r' % (uid, nat, tname, args))
+
+
 def subject_occurred(W, prop, ex):
     k = W.k
-    s = W.subjects
+    pr = k.probes
     if prop == 'C01':
         return len(W.jobs) > 0
     if prop == 'C02':
-        return any(r.kind != 'apply' for r in W.jobs.values()) or k.probes.get('map_with_failing_item', 0) > 0 \
-            or len(W.jobs) > 0
+        return len(W.jobs) > 0
+    if prop == 'C03':
+        return any(W.msgs_out.values())
+    if prop == 'C04':
+        return pr.get('worker_died_in_task', 0) > 0
+    if prop == 'C05':
+        return W.subjects.get('hard_limited_jobs', 0) > 0
+    if prop == 'C06':
+        return pr.get('soft_limit_fired', 0) > 0
     if prop == 'C07':
         return W.closed_at is not None and 'join_ret' in W.marks
+    if prop == 'C08':
+        return bool(W.term_calls) or pr.get('operator_signal', 0) > 0
+    if prop == 'C09':
+        return pr.get('worker_recycled', 0) > 0 or pr.get('grow', 0) + pr.get('shrink', 0) > 0 or W.any_worker_exit
+    if prop == 'C10':
+        return bool(W.slot_checks)
+    if prop == 'C11':
+        return any(w['proc'].dead for w in W.workers.values())
+    if prop == 'C12':
+        return any(r.first and not r.res._success for r in W.jobs.values() if r.kind == 'apply' and r.res is not None)
     return True
